@@ -353,6 +353,43 @@ def c05d(ctx):
                     ctx.check(ok, construct, 'level database chosen by the `level` parameter', fn, call)
                     continue
 
+                def grouped_by_level(e, tiles_e):
+                    """`for L in D: self._get_level(L).x(D[L])` (or `for L, ts in D.items()`) where D is only filled by
+                    D.setdefault(t.coord[2], []).append(t) / D[t.coord[2]].append(t): the tiles of a group have the level of its key"""
+                    loop = enclosing(call, ast.For)
+                    if loop is None or not isinstance(e, ast.Name):
+                        return False
+                    it = loop.iter
+                    if isinstance(it, ast.Call) and isinstance(it.func, ast.Attribute) and it.func.attr in ('items', 'keys') and not it.args:
+                        dname, kind = unparse(it.func.value), it.func.attr
+                    else:
+                        dname, kind = unparse(it), 'keys'
+                    if kind == 'items':
+                        if not (isinstance(loop.target, ast.Tuple) and len(loop.target.elts) == 2 and unparse(loop.target.elts[0]) == e.id and
+                                tiles_e is not None and unparse(tiles_e) == unparse(loop.target.elts[1])):
+                            return False
+                    else:
+                        if not (unparse(loop.target) == e.id and tiles_e is not None and unparse(tiles_e).replace(' ', '') == '%s[%s]' % (dname, e.id)):
+                            return False
+                    fills = []
+                    for x in fn.walk():
+                        if isinstance(x, ast.Call) and isinstance(x.func, ast.Attribute) and x.func.attr == 'append' and len(x.args) == 1:
+                            recv = x.func.value
+                            key = None
+                            if isinstance(recv, ast.Call) and isinstance(recv.func, ast.Attribute) and recv.func.attr == 'setdefault' and \
+                                    unparse(recv.func.value) == dname and len(recv.args) == 2:
+                                key = recv.args[0]
+                            elif isinstance(recv, ast.Subscript) and unparse(recv.value) == dname:
+                                key = recv.slice
+                            if key is not None:
+                                fills.append((key, x.args[0]))
+                        if isinstance(x, ast.Subscript) and isinstance(x.ctx, ast.Store) and unparse(x.value) == dname:
+                            par = getattr(x, '_parent', None)
+                            v = par.value if isinstance(par, ast.Assign) else None
+                            if not (isinstance(v, (ast.List, ast.Dict)) and not getattr(v, 'elts', getattr(v, 'keys', []))):
+                                return False        # something else is stored under a key
+                    return bool(fills) and all(isinstance(t, ast.Name) and fn.ctext(k) == '%s.coord[2]' % t.id for k, t in fills)
+
                 def is_level_of(e, tilevar, depth=3):
                     if isinstance(e, ast.Subscript) and const_value(e.slice) == 2 and not unparse(e.value).endswith('.coord') and depth == 3:
                         # the coordinate may have been read into a local first: judge the closed form
@@ -382,6 +419,15 @@ def c05d(ctx):
                         return ok
                     return False
                 tv = unparse(tile_arg) if isinstance(tile_arg, ast.Name) and st.name not in ('store_tiles', 'load_tiles') else None
+                if st.name in ('store_tiles', 'load_tiles'):
+                    # a list of tiles goes to one level database: every tile of the list has that level (grouped by coord[2])
+                    by_groupby = isinstance(arg, ast.Name) and any(isinstance(v, ast.Call) and call_name(v) == 'groupby' and sel == ('elem', 0)
+                                                                   for v, sel in defs.of(arg.id)) and is_level_of(arg, None)
+                    ok = by_groupby or grouped_by_level(arg, tile_arg)
+                    ctx.check(ok, construct, 'the tiles handed to a level database are grouped by coord[2]', fn, call,
+                              fail='%s.%s hands a list of tiles to the database of level %s without grouping them by their level: tiles of other '
+                                   'levels are looked up / stored in the wrong file' % (cname, st.name, unparse(arg)))
+                    continue
                 ok = is_level_of(arg, tv)
                 ctx.check(ok, construct, 'level database chosen by coord[2] of the tile that is passed on', fn, call,
                           fail='level database chosen by %s, which is not coord[2] of the forwarded tile' % unparse(arg))
@@ -546,6 +592,22 @@ def _bulk_insert(ctx, fn, call, args, base):
         label = ','.join('%s=%s' % (k.replace('self.', ''), 'T' if v else 'F') for k, v in assume.items()) or '-'
         nq = sql.value.count('?')
         cols, nvals = _insert_cols(sql.value)
+        # a store to an address that holds a tile replaces the whole row -- INSERT OR REPLACE, or an upsert whose SET list names every
+        # inserted column that is not part of the address: a column left as it was (tile_data without last_modified) makes the new tile
+        # look like the old one to everything that reads that column
+        flat = ' '.join(sql.value.split())
+        if re.search(r'\bON\s+CONFLICT\b', flat, re.I):
+            m = re.search(r'\bON\s+CONFLICT\s*\(([^)]*)\)\s*DO\s+UPDATE\s+SET\s+(.*)$', flat, re.I)
+            key_cols = [c.strip() for c in m.group(1).split(',')] if m else []
+            set_cols = [a.split('=')[0].strip() for a in m.group(2).split(',')] if m else []
+            left = [c for c in (cols or []) if c not in key_cols and c not in set_cols]
+            whole = bool(m) and not left and bool(cols)
+            how = 'upsert leaves %s of an existing row unchanged' % left if m else 'ON CONFLICT clause that does not update'
+        else:
+            whole = bool(re.match(r'\s*(INSERT\s+OR\s+REPLACE|REPLACE)\s+INTO\b', flat, re.I))
+            how = 'plain INSERT: the store of a tile that exists fails'
+        ctx.check(whole, '%s:overwrites-whole-row[%s]' % (base, label), 'a store replaces every column of an existing row', fn, call,
+                  fail='under %s the store does not replace the whole row of a tile that is already there (%s)' % (label, how))
         for x, t in recs:
             ctx.check(len(t.elts) == nq, '%s:arity[%s]' % (base, label), '%d placeholders, records of %d values' % (nq, len(t.elts)), fn, call,
                       fail='under %s the statement has %d placeholders but the records have %d values: %s' % (
@@ -1189,3 +1251,36 @@ def c05o(ctx):
                                'value' % (cls.name, st.name, callee))
         if n == 0:
             raise Undecided('%s: no location computation with dimensions found' % cls.name)
+
+
+@rule('C05.p', floor=1)
+def c05p(ctx):
+    """tiles that differ only in a dimension value never share a directory: the function that makes a dimension value safe for use as
+    one directory name is injective.  Decided for the escape-character scheme: the value goes through a chain of single-character
+    replacements c_i -> E + s_i where the escape character E itself is replaced first, the suffixes s_i have one length, are pairwise
+    different and contain neither E nor any replaced character -- the original value can be read back from the result, so two
+    different values give two different names.  (Mapping the separators to an ordinary character such as '_' is safe as a path, but
+    'a/b' and 'a_b' then share a directory.)"""
+    fn = ctx.fn(PATH + ':_dimension_dirname')
+    rets = returns_of(fn.node)
+    ok = len(rets) == 1
+    detail = 'no single return'
+    if ok:
+        e = fn.canon.expr(rets[0].value)
+        chain = []
+        while isinstance(e, ast.Call) and isinstance(e.func, ast.Attribute) and e.func.attr == 'replace' and len(e.args) == 2:
+            chain.append((const_value(e.args[0]), const_value(e.args[1])))
+            e = e.func.value
+        chain.reverse()
+        base_ok = (is_call(e, 'str') and len(e.args) == 1 and unparse(e.args[0]) == fn.params[0]) or unparse(e) == fn.params[0]
+        ok = base_ok and len(chain) >= 2 and all(isinstance(c, str) and len(c) == 1 and isinstance(r, str) and len(r) >= 2 for c, r in chain)
+        detail = 'chain %s on %s' % (chain, unparse(e))
+        if ok:
+            E = chain[0][1][0]
+            chars = [c for c, r in chain]
+            sufs = [r[1:] for c, r in chain]
+            ok = chain[0][0] == E and all(r[0] == E for c, r in chain) and len(set(chars)) == len(chars) and \
+                len({len(x) for x in sufs}) == 1 and len(set(sufs)) == len(sufs) and \
+                not any(ch in x for x in sufs for ch in chars) and {'/', '\\'} <= set(chars)
+    ctx.check(ok, '_dimension_dirname:injective', 'dimension values are escaped with an escape character that is escaped first: different values, different names', fn,
+              fail='the sanitiser of dimension values is not an injective escape scheme (%s): different dimension values can share a cache directory' % detail)
